@@ -852,7 +852,7 @@ func Run(cfg *common.Config) (*common.Report, error) {
 		}
 		all := loadCtx(e.Loader, g)
 		hi := hs[cfg.Rng.Intn(len(hs))]
-		in := Input{Doc: doc.Bytes, Ctx: ctxFor(doc.Bytes, all), Hasher: hi, Cfg: i%3 != 0}
+		in := Input{Doc: doc.Bytes, Ctx: ctxFor(doc.Bytes, all), Hasher: hi, Cfg: i%3 != 0, DSLevel: i%4 == 1}
 		if !in.Cfg {
 			in.Hasher = 0
 		}
